@@ -29,7 +29,8 @@ RULE = (
     "B: env x config x generator/lattice/float instances (OP nodes beyond the budget, SVRP skills above technician 0, "
     "TSP/CVRP instances larger or smaller than env.generator.num_loc) x k in 1..2n or default get_num_starts; "
     "non-trivial = B>=2, k>=2 and some row has an infeasible non-depot first move or k != #feasible. "
-    "C: AM policy (embed 32, spread init) on tsp/cvrp/sdvrp(dynamic embedding)/pctsp/pdp/mtvrp, n 4-8, B 2-4 distinct generator instances, "
+    "C: AM policy (embed 32, spread init) on tsp/cvrp/sdvrp (dynamic embedding branch)/pctsp/pdp/mtvrp/mtsp (reward read "
+    "from the final state), n 4-8 (thorough 4-12), B 1-4 (thorough 1-6) distinct generator instances, "
     "multistart_greedy / multistart_sampling / sampling+num_samples, k explicit or default, select_best off and on "
     "under the same torch seed, summed or per-step log-likelihood; non-trivial = B>=2, k>=2, k != B. "
     "D: POMO.shared_step(val/test) with num_augment a in 2..4 (symmetric), num_starts s in 2..5, a != s mostly."
@@ -41,7 +42,9 @@ ASSUMPTIONS = [
     "log-likelihood must come from the same candidate",
     "independent objective oracle (vf.oracles.routing) on the ORIGINAL instance, tolerance 1e-5*(1+sum|terms|)",
     "evaluate-mode comparison tolerance 1e-4 absolute per step (float32, different batch layouts)",
-    "op / svrp / smtwtp are excluded by construction from C and D (their start rules are known findings F17-F19)",
+    "op / svrp / smtwtp are excluded by construction from C and D (their start rules are known findings F17-F19); "
+    "mtsp runs in C only with at most as many starts as cities (wrap-around finding of sub-check B)",
+    "get_best_actions has no caller and no docstring; it is read as 'actions of candidate max_idxs[b] of instance b'",
 ]
 TIME_CAP = {"quick": 300, "thorough": 2400}
 
@@ -453,9 +456,10 @@ MODES = ["multistart_greedy", "multistart_sampling", "sampling"]
 
 @st.composite
 def rollout_cases(draw, tier="quick"):
+    big = tier != "quick"
     name = draw(st.sampled_from(C_ENVS + EXCLUDED_C[:1]))
-    n = draw(st.integers(4, 8))
-    B = draw(st.sampled_from([2, 2, 3, 3, 4, 1]))
+    n = draw(st.integers(4, 12 if big else 8))
+    B = draw(st.sampled_from([2, 2, 3, 3, 4, 1] + ([5, 6] if big else [])))
     mode = draw(st.sampled_from(MODES))
     k = draw(st.one_of(st.integers(2, n + 2), st.integers(2, 5), st.none() if mode != "sampling" else st.integers(2, 4)))
     return {"env": name, "n": n, "B": B, "mode": mode, "k": k, "seed": draw(st.integers(0, 2 ** 31 - 1)),
@@ -527,6 +531,10 @@ def exec_rollouts(case, ctx):
     multistart = mode.startswith("multistart")
     k = case["k"]
     k_eff = k if k is not None else env.get_num_starts(td0)
+    if name == "mtsp" and multistart and k_eff > mask0.shape[1] - 1:
+        # the wrap-around of the default rule is off by one for mTSP (start_nodes|mtsp|out_of_range|k>feas, sub-check B)
+        ctx.exclude("mtsp with more starts than cities: start wrap-around finding of sub-check start_nodes")
+        return
     sl = f"{name}|{mode}|{'k=default' if k is None else 'k'}"
     ctx.event(sl)
     if B >= 2 and k_eff >= 2 and k_eff != B:
